@@ -137,24 +137,6 @@ def classify(callee):
     return None
 
 
-def _classify_old(callee):
-    for m in MAY_PANIC:
-        if m in callee:
-            return "may-panic"
-    for m in CALLER_SUPPLIED:
-        if m in callee:
-            return "caller-supplied"
-    for m in NO_PANIC:
-        if m in callee:
-            return "no-panic"
-    return None
-
-
-# -------------------------------------------------------------------------------------------------------------- O-AUDIT
-# function-name suffix -> list of (kind, detail substring, expected count, discharge, reason)
-# discharge kinds: GUARD (a dominating condition; `check` names the machine check that re-derives it on every run),
-#   FACT (a table obligation checked in the same run), TYPE, CONST, RESOURCE (exhaustion of a 2^64/2^32 counter or isize::MAX bytes),
-#   RULE (decided by the named rule of another property evaluated in the same run)
 A = []
 
 
